@@ -377,14 +377,22 @@ def corr_public_compute_rdp(ctx, variant):
         scalar = rng.random() < 0.5
         orders = [gen_alpha(rng, alphas)] if scalar else [gen_alpha(rng, alphas) for _ in range(rng.randint(1, 5))]
         orders = [a for a in orders if not math.isinf(a)] or [2.0]
+        container = "list"
+        if not scalar and rng.random() < 0.5:
+            # the grid of orders in the containers users pass: tuple, float ndarray, and – for integer grids – an integer
+            # ndarray / range (np.arange(2, 64) is the textbook grid): the value per order must not depend on the container
+            container = rng.choice(["tuple", "ndarray", "int-ndarray", "range"])
+            if container in ("int-ndarray", "range"):
+                lo = rng.randint(2, 6)
+                orders = [float(a) for a in range(lo, lo + rng.randint(2, 6))]
         i = b.add(f"rdp {f2h(q)} {f2h(s)} {steps} {len(orders)} " + " ".join(L.otok(a) for a in orders), frac_triples([(s, q)], orders))
-        cases.append((q, s, steps, orders, scalar, i))
+        cases.append((q, s, steps, orders, scalar, i, container))
     rep = b.run()
-    for q, s, steps, orders, scalar, i in cases:
+    for q, s, steps, orders, scalar, i, container in cases:
         if i in b.skipped:
             ctx.count("skipped:series-longer-than-table")
             continue
-        impl = L.call(R.compute_rdp, q=q, noise_multiplier=s, steps=steps, orders=float(orders[0]) if scalar else list(orders))
+        impl = L.call(R.compute_rdp, q=q, noise_multiplier=s, steps=steps, orders=float(orders[0]) if scalar else in_container(orders, container))
         toks = rep[i].split()
         if isinstance(impl, L.Exc):
             ok = rep[i].startswith("err:") and rep[i] != "err:oracle-exhausted"
@@ -392,12 +400,24 @@ def corr_public_compute_rdp(ctx, variant):
             vals = [float(impl)] if scalar else [float(x) for x in impl]
             model = [L.evval(t) for t in toks]
             ok = len(vals) == len(model) and all(ev_close(v, m, a, steps) for v, m, a in zip(vals, model, orders))
-        ctx.case(("compute_rdp", q, s, steps, tuple(orders), scalar), nontrivial=steps > 1 and 0 < q < 1, kind="compute_rdp:" + ("scalar-order" if scalar else "order-list"))
+        ctx.case(("compute_rdp", q, s, steps, tuple(orders), scalar, container), nontrivial=steps > 1 and 0 < q < 1, kind="compute_rdp:" + ("scalar-order" if scalar else "order-" + container))
         if ok:
             ctx.validated()
         else:
-            ctx.mismatch("public-compute-rdp", {"q": q, "sigma": s, "steps": steps, "orders": orders, "scalar": scalar}, str(impl)[:300], rep[i][:300],
+            ctx.mismatch("public-compute-rdp", {"q": q, "sigma": s, "steps": steps, "orders": orders, "scalar": scalar, "container": container}, str(impl)[:300], rep[i][:300],
                          oracle=lambda c: public_rdp_oracle(c))
+
+
+def in_container(orders, container):
+    if container == "tuple":
+        return tuple(orders)
+    if container == "ndarray":
+        return np.array(orders, dtype=float)
+    if container == "int-ndarray":
+        return np.array([int(a) for a in orders], dtype=np.int64)
+    if container == "range":
+        return range(int(orders[0]), int(orders[-1]) + 1)
+    return list(orders)
 
 
 def public_rdp_oracle(c):
@@ -405,7 +425,18 @@ def public_rdp_oracle(c):
     and each per-step value is the true divergence (quadrature)"""
     from opacus.accountants.analysis import rdp as R
 
-    o = float(c["orders"][0]) if c["scalar"] else list(c["orders"])
+    o = float(c["orders"][0]) if c["scalar"] else in_container(c["orders"], c.get("container", "list"))
+    try:
+        # the value per order is a function of the order alone: the same whatever container the grid comes in
+        if not c["scalar"]:
+            vals = np.atleast_1d(R.compute_rdp(q=c["q"], noise_multiplier=c["sigma"], steps=c["steps"], orders=o)).astype(float)
+            for a, v in zip(c["orders"], vals):
+                w = float(R._compute_rdp(c["q"], c["sigma"], float(a))) * c["steps"]
+                if math.isfinite(w) and not core.close(float(v), w, 1e-9, 1e-300):
+                    return ("C06:public-compute-rdp:container-dependent", f"compute_rdp(q={c['q']}, sigma={c['sigma']}, steps={c['steps']}, orders=<{c.get('container', 'list')}> {c['orders']}) "
+                            f"gives {float(v)} at order {a}; steps x _compute_rdp at that order = {w}", {"failing_input": dict(c)})
+    except Exception:
+        pass
     try:
         one = np.atleast_1d(R.compute_rdp(q=c["q"], noise_multiplier=c["sigma"], steps=1, orders=o)).astype(float)
         many = np.atleast_1d(R.compute_rdp(q=c["q"], noise_multiplier=c["sigma"], steps=c["steps"], orders=o)).astype(float)
